@@ -406,6 +406,42 @@ type evalCtx struct {
 	formats []int16
 	table   *Table
 	row     [][]byte
+	bound   []boundTable // joins: every table of the FROM clause with its current row
+}
+
+// boundTable is one table of a join with the row under consideration.
+type boundTable struct {
+	alias string
+	t     *Table
+	row   [][]byte
+}
+
+// resolve finds the table, row and column a column reference names.
+func (e *evalCtx) resolve(cr *pg_query.ColumnRef) (*Table, [][]byte, int, error) {
+	name := sval(cr.Fields[len(cr.Fields)-1])
+	if len(e.bound) == 0 {
+		if e.table == nil {
+			return nil, nil, -1, fmt.Errorf("column reference outside of a row")
+		}
+		i := e.table.colIndex(name)
+		if i < 0 {
+			return nil, nil, -1, fmt.Errorf("column %q does not exist", name)
+		}
+		return e.table, e.row, i, nil
+	}
+	qual := ""
+	if len(cr.Fields) >= 2 {
+		qual = strings.ToLower(sval(cr.Fields[len(cr.Fields)-2]))
+	}
+	for _, b := range e.bound {
+		if qual != "" && qual != strings.ToLower(b.alias) && qual != strings.ToLower(b.t.Name) {
+			continue
+		}
+		if i := b.t.colIndex(name); i >= 0 {
+			return b.t, b.row, i, nil
+		}
+	}
+	return nil, nil, -1, fmt.Errorf("column %q does not exist", name)
 }
 
 func sval(n *pg_query.Node) string {
@@ -422,9 +458,9 @@ func (e *evalCtx) colType(n *pg_query.Node) string {
 	if tc := n.GetTypeCast(); tc != nil {
 		return e.colType(tc.Arg)
 	}
-	if cr := n.GetColumnRef(); cr != nil && e.table != nil && len(cr.Fields) > 0 {
-		if i := e.table.colIndex(sval(cr.Fields[len(cr.Fields)-1])); i >= 0 {
-			return e.table.Cols[i].Type
+	if cr := n.GetColumnRef(); cr != nil && len(cr.Fields) > 0 {
+		if t, _, i, err := e.resolve(cr); err == nil {
+			return t.Cols[i].Type
 		}
 	}
 	if fc := n.GetFuncCall(); fc != nil && len(fc.Args) > 0 {
@@ -479,17 +515,17 @@ func (e *evalCtx) eval(n *pg_query.Node) (value, error) {
 		return e.eval(n.GetTypeCast().Arg)
 	case n.GetColumnRef() != nil:
 		cr := n.GetColumnRef()
-		if e.table == nil || e.row == nil {
+		_, row, i, err := e.resolve(cr)
+		if err != nil {
+			return value{}, err
+		}
+		if row == nil {
 			return value{}, fmt.Errorf("column reference outside of a row")
 		}
-		i := e.table.colIndex(sval(cr.Fields[len(cr.Fields)-1]))
-		if i < 0 {
-			return value{}, fmt.Errorf("column %q does not exist", sval(cr.Fields[len(cr.Fields)-1]))
-		}
-		if e.row[i] == nil {
+		if row[i] == nil {
 			return value{null: true}, nil
 		}
-		return value{b: e.row[i], binary: true}, nil // canonical
+		return value{b: row[i], binary: true}, nil // canonical
 	case n.GetFuncCall() != nil:
 		fc := n.GetFuncCall()
 		name := strings.ToLower(sval(fc.Funcname[len(fc.Funcname)-1]))
@@ -677,6 +713,26 @@ func (db *PgDB) describe(sql string) ([]pgproto3.FieldDescription, error) {
 	switch {
 	case st.GetSelectStmt() != nil:
 		s := st.GetSelectStmt()
+		if rels, _, ok := joinOf(s); ok {
+			probe := *s
+			probe.WhereClause = nil
+			saved := map[string][][][]byte{}
+			for _, rv := range rels {
+				if t := db.Tables[relName(rv)]; t != nil {
+					saved[t.Name], t.Rows = t.Rows, nil
+				}
+			}
+			res, err := db.execJoin(&probe, rels, nil, nil, nil)
+			for _, rv := range rels {
+				if t := db.Tables[relName(rv)]; t != nil {
+					t.Rows = saved[t.Name]
+				}
+			}
+			if err != nil {
+				return nil, err
+			}
+			return res.fields, nil
+		}
 		if len(s.FromClause) != 1 || s.FromClause[0].GetRangeVar() == nil {
 			return nil, fmt.Errorf("unsupported")
 		}
@@ -930,6 +986,13 @@ func (db *PgDB) exec(sql string, params [][]byte, formats []int16) *pgResult {
 		return &pgResult{tag: fmt.Sprintf("DELETE %d", n)}
 	case st.GetSelectStmt() != nil:
 		s := st.GetSelectStmt()
+		if rels, quals, ok := joinOf(s); ok {
+			res, err := db.execJoin(s, rels, quals, params, formats)
+			if err != nil {
+				return fail(err)
+			}
+			return res
+		}
 		if len(s.FromClause) != 1 || s.FromClause[0].GetRangeVar() == nil {
 			return fail(fmt.Errorf("simulated database: SELECT from exactly one table is supported"))
 		}
@@ -971,4 +1034,93 @@ func (db *PgDB) project(t *Table, ri int, row [][]byte, idx []int) [][]byte {
 		out[k] = cell
 	}
 	return out
+}
+
+// joinOf recognises a two-table inner join: "a JOIN b ON cond" or "a, b".
+func joinOf(s *pg_query.SelectStmt) ([]*pg_query.RangeVar, *pg_query.Node, bool) {
+	if len(s.FromClause) == 1 && s.FromClause[0].GetJoinExpr() != nil {
+		j := s.FromClause[0].GetJoinExpr()
+		if j.Jointype == pg_query.JoinType_JOIN_INNER && j.Larg.GetRangeVar() != nil && j.Rarg.GetRangeVar() != nil {
+			return []*pg_query.RangeVar{j.Larg.GetRangeVar(), j.Rarg.GetRangeVar()}, j.Quals, true
+		}
+	}
+	if len(s.FromClause) == 2 && s.FromClause[0].GetRangeVar() != nil && s.FromClause[1].GetRangeVar() != nil {
+		return []*pg_query.RangeVar{s.FromClause[0].GetRangeVar(), s.FromClause[1].GetRangeVar()}, nil, true
+	}
+	return nil, nil, false
+}
+
+// execJoin evaluates a two-table inner join by nested loops; targets are column references.
+func (db *PgDB) execJoin(s *pg_query.SelectStmt, rels []*pg_query.RangeVar, quals *pg_query.Node, params [][]byte, formats []int16) (*pgResult, error) {
+	var bound []boundTable
+	for _, rv := range rels {
+		t := db.Tables[relName(rv)]
+		if t == nil {
+			return nil, fmt.Errorf("relation %q does not exist", rv.Relname)
+		}
+		alias := t.Name
+		if rv.Alias != nil && rv.Alias.Aliasname != "" {
+			alias = rv.Alias.Aliasname
+		}
+		bound = append(bound, boundTable{alias: alias, t: t})
+	}
+	res := &pgResult{table: bound[0].t.Name}
+	type target struct {
+		cr *pg_query.ColumnRef
+	}
+	var targets []target
+	shape := &evalCtx{db: db, bound: bound}
+	for _, tn := range s.TargetList {
+		rt := tn.GetResTarget()
+		if rt == nil || rt.Val.GetColumnRef() == nil || rt.Val.GetColumnRef().Fields[len(rt.Val.GetColumnRef().Fields)-1].GetAStar() != nil {
+			return nil, fmt.Errorf("select target not supported by the simulated database in a join")
+		}
+		cr := rt.Val.GetColumnRef()
+		t, _, i, err := shape.resolve(cr)
+		if err != nil {
+			return nil, err
+		}
+		name := t.Cols[i].Name
+		if rt.Name != "" {
+			name = rt.Name
+		}
+		res.fields = append(res.fields, pgproto3.FieldDescription{Name: []byte(name), TableOID: 16384, TableAttributeNumber: uint16(i + 1),
+			DataTypeOID: typeOID[t.Cols[i].Type], DataTypeSize: -1, TypeModifier: -1})
+		res.cols = append(res.cols, t.Cols[i].Type)
+		targets = append(targets, target{cr})
+	}
+	for li, lrow := range bound[0].t.Rows {
+		for ri, rrow := range bound[1].t.Rows {
+			e := &evalCtx{db: db, params: params, formats: formats,
+				bound: []boundTable{{bound[0].alias, bound[0].t, lrow}, {bound[1].alias, bound[1].t, rrow}}}
+			ok, err := e.cond(quals)
+			if err != nil {
+				return nil, err
+			}
+			if !ok {
+				continue
+			}
+			if ok, err = e.cond(s.WhereClause); err != nil {
+				return nil, err
+			} else if !ok {
+				continue
+			}
+			var out [][]byte
+			for _, tg := range targets {
+				t, row, i, _ := e.resolve(tg.cr)
+				cell := row[i]
+				if cell != nil && db.Corrupt != nil {
+					rowIdx := li
+					if t == bound[1].t {
+						rowIdx = ri
+					}
+					cell = db.Corrupt(t.Name, rowIdx, i, cell)
+				}
+				out = append(out, cell)
+			}
+			res.rows = append(res.rows, out)
+		}
+	}
+	res.tag = fmt.Sprintf("SELECT %d", len(res.rows))
+	return res, nil
 }
